@@ -227,7 +227,11 @@ CLAIMED = {
              'among layouts) the token sequence of the expression expr_of prescribes, and that expression evaluates, '
              'under the target semantics PyEval.eval, to the same value with the same constructor at every position '
              '(float literals by repr, inf/nan via float(...), 1-tuples with their comma, set()/frozenset([...]); dict '
-             'entries in insertion order or in the order sorted(keys, key=_AlwaysSortable) returned). The printer model '
+             'entries in insertion order or in the order sorted(keys, key=_AlwaysSortable) returned). '
+             'C01_engine_output_tokens_all (Proofs/StrBridge.v, EndToEnd.v): the stream the model of the layout engine '
+             'really emits for ANY well-formed value - strings split any way, every multi-line strategy - carries raw '
+             'tokens that glue to that token sequence, each string value from the literal pieces of one non-empty split '
+             'of it. The printer model '
              'is compared with pformat character for character on bounded-exhaustive and random value trees over an '
              'adversarial leaf alphabet x width/ribbon 1..200 x indent 1..8 x sort; the oracle evals the real output '
              'with type-exact structural comparison (sign of zero, nan, dict order, ascending keys when sorting).',
@@ -235,7 +239,7 @@ CLAIMED = {
         note=COMMON_NOTE + ' Fragment-level tokens: the theorems are stated on the token class each fragment carries '
              '(annotation); that the concatenated text lexes/parses to those tokens and that PyEval.eval agrees with '
              'CPython is validated by the oracle (tokenize/ast/eval on every generated output), not proved. The '
-             'contextual string document stands for one string value (C02_pieces). repr(float) and the order returned '
+             'contextual string document stands for one string value (C02_pieces; at the engine level the pieces are glued by the relation StrBridge.Glue). repr(float) and the order returned '
              'by sorted() / set iteration are observed inputs of the model (DESIGN.md 3.3).'),
     'C04': dict(
         text='Theorem C04_membership (Proofs/Membership.v): for every document of the full algebra, every width and '
